@@ -115,6 +115,7 @@ struct OpResult {
     uint32_t nalloc = 0;  // allocation requests made by the library inside the op
     uint32_t nfailed = 0; // of which failed by injection
     uint32_t outstanding = 0; // library allocations made in this op and still live at its return
+    uint32_t libc_static = 0; // non-reentrant libc facilities used by the call (bit index: g_libc_static_names)
     uint32_t double_free = 0; // blocks the library released a second time (the second free is not executed)
     uint32_t wr_faults = 0, rd_faults = 0;
     std::vector<HCall> hcalls;
@@ -272,6 +273,7 @@ struct AllocRec {
     uint32_t site;
     int task, op;
 };
+extern const char *g_libc_static_names[];
 extern std::vector<AllocRec> g_live; // library allocations currently outstanding
 extern std::vector<void *> g_freed;   // blocks released by the library in this pass and not handed out again since
 uint32_t site_id(uintptr_t ret_addr);
